@@ -307,7 +307,7 @@ GLOBAL_REWRITES = [
 ]
 
 
-def splice_fn(text, spec=None, ret=None, loops=None, before=None, after=None, rewrites=None, strip_pub=False, log=None, sel="", forloops=None, loopends=None, bodystart=None, bodyend=None, optloops=None):
+def splice_fn(text, spec=None, ret=None, loops=None, before=None, after=None, rewrites=None, strip_pub=False, log=None, sel="", forloops=None, loopends=None, bodystart=None, bodyend=None, optloops=None, optghost=None):
     """text = verbatim fn item. Returns (new_text, segments) where segments = list of (kind, label, line_lo, line_hi)
     relative to new_text, for mapping verifier diagnostics back to named clauses."""
     log = log if log is not None else []
@@ -366,8 +366,22 @@ def splice_fn(text, spec=None, ret=None, loops=None, before=None, after=None, re
             raise Undecided(f"lost anchor: ghost splice point `{snippet}` #{k} in {sel}")
         return hits[k - 1]
     marks = []  # (line_index, 'before'|'after', ghost_lines, label)
+    _find_line = find_line
+    def find_line(k, snippet):
+        # a ghost splice point declared optional (`//@AFTER k? ..`: hint only, carries no contract) that no longer exists: drop the
+        # ghost text (it has no exec semantics) and let the proof decide.
+        # If everything still verifies that is a proof; a failure in this item is then reported as UNDECIDED (the proof may
+        # only be missing its hints), never as a violation -- see verus.py (`ghost-anchor-lost`).
+        try:
+            return _find_line(k, snippet)
+        except Undecided as e:
+            if (k, snippet) not in (optghost or ()):
+                raise      # the ghost text may CARRY the contract (an assert at a splice point): losing it must not pass silently
+            log.append({"rule": "ghost-anchor-lost", "item": sel, "from": f"`{snippet}` #{k}", "to": "(ghost text dropped)", "count": 1})
+            return None
     for k, snippet, ghost in (before or []):
-        marks.append((find_line(k, snippet), 0, ghost, f"ghost-before:{snippet}"))
+        i_ = find_line(k, snippet)
+        if i_ is not None: marks.append((i_, 0, ghost, f"ghost-before:{snippet}"))
     def stmt_end(i):
         """index of the line on which the statement starting on line i ends (delimiter depth back to 0 and a ';' or a closing '}' seen)"""
         depth = 0
@@ -381,9 +395,11 @@ def splice_fn(text, spec=None, ret=None, loops=None, before=None, after=None, re
         return i
     for k, snippet, ghost in (after or []):
         if snippet.startswith("stmt:"):
-            marks.append((stmt_end(find_line(k, snippet[5:].strip())) + 1, 1, ghost, f"ghost-after-stmt:{snippet[5:].strip()}"))
+            i_ = find_line(k, snippet[5:].strip())
+            if i_ is not None: marks.append((stmt_end(i_) + 1, 1, ghost, f"ghost-after-stmt:{snippet[5:].strip()}"))
         else:
-            marks.append((find_line(k, snippet) + 1, 1, ghost, f"ghost-after:{snippet}"))
+            i_ = find_line(k, snippet)
+            if i_ is not None: marks.append((i_ + 1, 1, ghost, f"ghost-after:{snippet}"))
     marks.sort(key=lambda x: (x[0], x[1]))
     out = []
     mi = 0
@@ -588,6 +604,7 @@ def compose(template_text, repo_root, read_file):
                 raise Undecided(f"bad //@ITEM line: {l}")
             spec, loops, before, after, rew, forloops, loopends, bodystart, bodyend = [], [], [], [], [], [], [], [], []
             optloops = set()
+            optghost = set()
             cur = None
             i += 1
             while i < len(lines) and not lines[i].strip().startswith("//@END"):
@@ -620,7 +637,10 @@ def compose(template_text, repo_root, read_file):
                 elif s.startswith("//@BEFORE") or s.startswith("//@AFTER"):
                     parts = s.split(None, 2)
                     cur = []
-                    (before if s.startswith("//@BEFORE") else after).append((int(parts[1]), parts[2], cur))
+                    if parts[1].endswith("?"):      # `//@AFTER k? snippet`: a pure hint; dropped when its splice point is gone
+                        sn_ = parts[2][5:].strip() if parts[2].startswith("stmt:") else parts[2]
+                        optghost.add((int(parts[1].rstrip("?")), sn_))
+                    (before if s.startswith("//@BEFORE") else after).append((int(parts[1].rstrip("?")), parts[2], cur))
                 elif s.startswith("//@REWRITE"):
                     parts = s.split(None, 2)
                     frm, to = parts[2].split("==>", 1)
@@ -658,7 +678,7 @@ def compose(template_text, repo_root, read_file):
             is_fn = "fn " in args["sel"] and not args["sel"].startswith(("struct", "enum", "const", "static", "type"))
             if is_fn:
                 new_text = splice_fn(item_text, spec=spec, ret=args.get("ret"), loops=loops, before=before, after=after,
-                                     rewrites=rew, strip_pub=(args.get("strip", "pub") == "pub"), log=rewrites_log, sel=args["sel"], forloops=forloops, loopends=loopends, bodystart=bodystart, bodyend=bodyend, optloops=optloops)
+                                     rewrites=rew, strip_pub=(args.get("strip", "pub") == "pub"), log=rewrites_log, sel=args["sel"], forloops=forloops, loopends=loopends, bodystart=bodystart, bodyend=bodyend, optloops=optloops, optghost=optghost)
             else:
                 new_text = item_text
                 for rule, frm, to in rew:
